@@ -221,11 +221,12 @@ func decodeLossless(data []byte) (image.Image, error) {
 // encodeFrameForAnimation encodes an image to a raw VP8/VP8L bitstream
 // for use by the animation package's FrameEncoderFunc.
 func encodeFrameForAnimation(img image.Image, isLossless bool, quality int) ([]byte, error) {
-	opts := &EncoderOptions{
-		Lossless: isLossless,
-		Quality:  float32(quality),
-		Method:   4,
-	}
+	// Start from DefaultOptions: a zero-valued EncoderOptions is not the
+	// default (AlphaQuality 0 would quantize the alpha plane to two levels).
+	opts := DefaultOptions()
+	opts.Lossless = isLossless
+	opts.Quality = float32(quality)
+	opts.Method = 4
 	if isLossless {
 		bs, _, err := encodeLossless(img, opts)
 		return bs, err
@@ -250,11 +251,10 @@ func encodeFrameForAnimation(img image.Image, isLossless bool, quality int) ([]b
 // WebP file for use by the animation package's single-frame optimization.
 func simpleEncodeForAnimation(img image.Image, isLossless bool, quality float32) ([]byte, error) {
 	var buf bytes.Buffer
-	opts := &EncoderOptions{
-		Lossless: isLossless,
-		Quality:  quality,
-		Method:   4,
-	}
+	opts := DefaultOptions()
+	opts.Lossless = isLossless
+	opts.Quality = quality
+	opts.Method = 4
 	if err := Encode(&buf, img, opts); err != nil {
 		return nil, err
 	}
